@@ -73,6 +73,8 @@ def _one(prop, tier):
             param_used(ctx, f"{prop}.param-used", files)
             from .rules.common_pitfalls import pitfalls
             pitfalls(ctx, f"{prop}.pitfalls", files)
+            from .rules.common_params import option_forwarding
+            option_forwarding(ctx, f"{prop}.param-used", files)
 
     return run_property(prop, tier, rules, ev, selftest)
 
